@@ -7,9 +7,14 @@ the value of a fresh evaluation of its key.  In particular an entry that another
 as a finished result."
 
 Model: a thread is the evaluator run against an oracle (`evalQO`: every `get` consumes the next answer of a list, every cache
-operation is appended to a trace); `stepThread` performs the thread's next cache operation on the shared cache `World` (a `get`
-records the cache's answer) followed by the progress writes after it; `StepAny` lets any thread move.  `Reach env c c'` is the
-reflexive-transitive closure of `StepAny`: all schedules, any length, any number of threads.
+operation is appended to a trace).  A thread's own steps are the `get` / `store` / `remove` operations of its trace (`ownOps`);
+`stepThread` performs the thread's next own operation on the shared cache `World` (a `get` records the cache's answer).
+Progress-metadata writes (`store_metadata`) are not predicted: they are environment steps `envMeta c k status` — anybody may
+write metadata for ANY key with ANY status at ANY time.  `StepAny` lets any thread move or the environment write metadata;
+`Reach env c c'` is its reflexive-transitive closure: all schedules, any length, any number of threads, interleaved with
+arbitrary metadata writes.  (`runEvents` runs a list of such events, `runSchedule` a list of thread indices, `finishAll` lets the
+threads finish.)  An environment write between two steps of a thread changes what the cache answers later, but the cache stays
+`Sound` whatever is written, so every answer a thread receives is still a miss or the finished value of the key.
 
 Vocabulary (Lemmas/ConcW.lean, ConcO3.lean, ConcO5.lean, EvalDefs.lean):
   `GoodAt env k st`   — `st` is, up to `status`, the successful, non-volatile, cacheable reference value of the key text `k`;
@@ -21,8 +26,8 @@ Vocabulary (Lemmas/ConcW.lean, ConcO3.lean, ConcO5.lean, EvalDefs.lean):
                          (hypotheses exactly as in C01/C04).
 Proof structure: ConcO1 (one-step equations of the oracle evaluator), ConcO2 (frame: trace grows, answers accounted, starved ⇒
 `unmodelled`), ConcO3 (refinement by induction on the fuel, reusing the reference-side lemmas of R-eval), ConcO4 (more answers
-only extend the trace), ConcO5 (the invariant and its preservation by every step), ConcO6 (an oracle fed the answers of a cache
-is the sequential evaluator).
+only extend the trace), ConcO5 (the invariant and its preservation by every thread step and every environment write), ConcO6
+(an oracle fed the answers of a cache is the sequential evaluator).
 -/
 import LiquerModel.Conc
 import LiquerProofs.Inst.Vocab
@@ -98,8 +103,8 @@ theorem recorded_answer_good {env : Env} {w : World} {ans : List (Option EState)
 /-! ### 4. the invariant -/
 
 /-- the invariant: the shared cache is `Sound`; every thread evaluates a query of the class, has performed a prefix of its
-trace, has received exactly the answers of the `get`s it performed, each good for its key; a result is the outcome of a run
-that did not starve -/
+own operations (`ThreadOK.done_le`: `t.done ≤ (ownOps (t.run env).1.trace).length`), has received exactly the answers of the
+`get`s it performed, each good for its key; a result is the outcome of a run that did not starve -/
 theorem inv_iff (env : Env) (C : Query → Prop) (c : Config) :
     Inv env C c ↔ Sound env c.shared ∧ ∀ t ∈ c.threads, ThreadOK env C t := Iff.rfl
 
@@ -109,8 +114,10 @@ theorem step_preserves_inv {env : Env} {C : Query → Prop} {T : Str → Prop} (
     (hcanon : ∀ q, C q → CanonOK env q) {c : Config} (h : Inv env C c) (i : Nat) : Inv env C (stepAt env c i) :=
   stepAt_inv hC hcanon (fun n A B q raw => evalQO_ext_prefix env n A B q raw .none none true) h i
 
-theorem start_preserves_inv {env : Env} {C : Query → Prop} {c : Config} (h : Inv env C c) : Inv env C (startAll env c) :=
-  startAll_inv h
+/-- an environment step — a metadata-only write of any key with any status — preserves the invariant -/
+theorem env_preserves_inv {env : Env} {C : Query → Prop} {c : Config} (h : Inv env C c) (k status : Str) :
+    Inv env C (envMeta c k status) :=
+  envMeta_inv h k status
 
 theorem reach_preserves_inv {env : Env} {C : Query → Prop} {T : Str → Prop} (hC : Closed env C T)
     (hcanon : ∀ q, C q → CanonOK env q) {c c' : Config} (hr : Reach env c c') (h : Inv env C c) : Inv env C c' :=
@@ -118,31 +125,42 @@ theorem reach_preserves_inv {env : Env} {C : Query → Prop} {T : Str → Prop} 
 
 theorem schedule_preserves_inv {env : Env} {C : Query → Prop} {T : Str → Prop} (hC : Closed env C T)
     (hcanon : ∀ q, C q → CanonOK env q) (sched : List Nat) (fuel : Nat) {c : Config} (h : Inv env C c) :
-    Inv env C (finishAll env fuel (runSchedule env (startAll env c) sched)) :=
+    Inv env C (finishAll env fuel (runSchedule env c sched)) :=
   finishAll_inv hC hcanon (fun n A B q raw => evalQO_ext_prefix env n A B q raw .none none true) fuel
-    (runSchedule_inv hC hcanon (fun n A B q raw => evalQO_ext_prefix env n A B q raw .none none true) sched
-      (startAll_inv h))
+    (runSchedule_inv hC hcanon (fun n A B q raw => evalQO_ext_prefix env n A B q raw .none none true) sched h)
+
+/-- every list of events (thread steps and environment metadata writes in any order), followed by letting the threads finish,
+preserves the invariant -/
+theorem events_preserve_inv {env : Env} {C : Query → Prop} {T : Str → Prop} (hC : Closed env C T)
+    (hcanon : ∀ q, C q → CanonOK env q) (evs : List Ev) (fuel : Nat) {c : Config} (h : Inv env C c) :
+    Inv env C (finishAll env fuel (runEvents env c evs)) :=
+  finishAll_inv hC hcanon (fun n A B q raw => evalQO_ext_prefix env n A B q raw .none none true) fuel
+    (runEvents_inv hC hcanon (fun n A B q raw => evalQO_ext_prefix env n A B q raw .none none true) evs h)
 
 /-- `runSchedule`, `finishAll` are instances of reachability (indices out of range do nothing) -/
 theorem schedule_reach (env : Env) (c : Config) (sched : List Nat) (fuel : Nat) :
     Reach env c (finishAll env fuel (runSchedule env c sched)) :=
   ((Reach.refl c).runSchedule sched).finishAll fuel
 
+/-- … and so is `runEvents` -/
+theorem events_reach (env : Env) (c : Config) (evs : List Ev) (fuel : Nat) :
+    Reach env c (finishAll env fuel (runEvents env c evs)) :=
+  ((Reach.refl c).runEvents evs).finishAll fuel
+
 /-! ### 5. the property -/
 
 /-- Every value left in the cache equals the fresh value of its key: from a `Sound` shared cache and fresh threads, under
-every schedule (before or after `startAll`), the shared cache of every reachable configuration is `Sound`. -/
+every schedule and whatever metadata the environment writes in between, the shared cache of every reachable configuration is
+`Sound`. -/
 theorem cache_sound_every_schedule {env : Env} {C : Query → Prop} {T : Str → Prop} (hC : Closed env C T)
     (hcanon : ∀ q, C q → CanonOK env q) {c0 c : Config} (h0 : Fresh env C c0)
-    (hr : Reach env c0 c ∨ Reach env (startAll env c0) c) : Sound env c.shared := by
-  rcases hr with hr | hr
-  · exact (reach_preserves_inv hC hcanon hr h0.inv).1
-  · exact (reach_preserves_inv hC hcanon hr (startAll_inv h0.inv)).1
+    (hr : Reach env c0 c) : Sound env c.shared :=
+  (reach_preserves_inv hC hcanon hr h0.inv).1
 
 /-- spelled out: every data-bearing entry of every reachable shared cache is the reference value of its key text -/
 theorem cache_values_fresh {env : Env} {C : Query → Prop} {T : Str → Prop} (hC : Closed env C T)
     (hcanon : ∀ q, C q → CanonOK env q) {c0 c : Config} (h0 : Fresh env C c0)
-    (hr : Reach env c0 c ∨ Reach env (startAll env c0) c) (k : Str) (st : EState) (hk : c.shared.dataAt k = some st) :
+    (hr : Reach env c0 c) (k : Str) (st : EState) (hk : c.shared.dataAt k = some st) :
     ∃ fuel st' calls, refText env fuel k = (.st st', calls) ∧ st'.isError = false ∧ st'.volatile = false ∧
       st'.caching = true ∧ st.core = st'.core :=
   cache_sound_every_schedule hC hcanon h0 hr k st hk
@@ -151,13 +169,10 @@ theorem cache_values_fresh {env : Env} {C : Query → Prop} {T : Str → Prop} (
 observation of the reference interpretation of its query. -/
 theorem result_is_solo {env : Env} {C : Query → Prop} {T : Str → Prop} (hC : Closed env C T)
     (hcanon : ∀ q, C q → CanonOK env q) {c0 c : Config} (h0 : Fresh env C c0)
-    (hr : Reach env c0 c ∨ Reach env (startAll env c0) c) (t : Thread) (ht : t ∈ c.threads) (o : Outcome)
+    (hr : Reach env c0 c) (t : Thread) (ht : t ∈ c.threads) (o : Outcome)
     (ho : t.result = some o) (hne : o ≠ .unmodelled) :
     ∃ m, (refQ env m t.q t.raw .none none).1 ≠ .unmodelled ∧ o.obs = (refQ env m t.q t.raw .none none).1.obs := by
-  have hinv : Inv env C c := by
-    rcases hr with hr | hr
-    · exact reach_preserves_inv hC hcanon hr h0.inv
-    · exact reach_preserves_inv hC hcanon hr (startAll_inv h0.inv)
+  have hinv : Inv env C c := reach_preserves_inv hC hcanon hr h0.inv
   obtain ⟨m, hsim⟩ := (hinv.2 t ht).result_sim hC hcanon ho hne
   exact ⟨m, Outcome.sim_ne_unmodelled hsim hne, Outcome.sim_obs hsim⟩
 
@@ -165,21 +180,18 @@ theorem result_is_solo {env : Env} {C : Query → Prop} {T : Str → Prop} (hC :
 initial one, or the final one), by cache transparency (C04) -/
 theorem result_is_sequential {env : Env} {C : Query → Prop} {T : Str → Prop} (hC : Closed env C T)
     (hcanon : ∀ q, C q → CanonOK env q) {c0 c : Config} (h0 : Fresh env C c0)
-    (hr : Reach env c0 c ∨ Reach env (startAll env c0) c) (t : Thread) (ht : t ∈ c.threads) (o : Outcome)
+    (hr : Reach env c0 c) (t : Thread) (ht : t ∈ c.threads) (o : Outcome)
     (ho : t.result = some o) (hne : o ≠ .unmodelled) (n : Nat) (w : World) (hS : Sound env w)
     (he : (evalQ env n w t.q t.raw .none none true).2 ≠ .unmodelled) :
     o.obs = (evalQ env n w t.q t.raw .none none true).2.obs := by
-  have hinv : Inv env C c := by
-    rcases hr with hr | hr
-    · exact reach_preserves_inv hC hcanon hr h0.inv
-    · exact reach_preserves_inv hC hcanon hr (startAll_inv h0.inv)
+  have hinv : Inv env C c := reach_preserves_inv hC hcanon hr h0.inv
   obtain ⟨m, hm, hobs⟩ := result_is_solo hC hcanon h0 hr t ht o ho hne
   rw [hobs, evalQ_obs hC hcanon n m w t.q t.raw .none none true hS (hinv.2 t ht).inC (fun _ => rfl) he hm]
 
 /-- two threads evaluating the same query under any schedule agree with each other -/
 theorem same_query_same_result {env : Env} {C : Query → Prop} {T : Str → Prop} (hC : Closed env C T)
     (hcanon : ∀ q, C q → CanonOK env q) {c0 c : Config} (h0 : Fresh env C c0)
-    (hr : Reach env c0 c ∨ Reach env (startAll env c0) c) (t t' : Thread) (ht : t ∈ c.threads) (ht' : t' ∈ c.threads)
+    (hr : Reach env c0 c) (t t' : Thread) (ht : t ∈ c.threads) (ht' : t' ∈ c.threads)
     (hq : t.q = t'.q) (hraw : t.raw = t'.raw) (o o' : Outcome) (ho : t.result = some o) (ho' : t'.result = some o')
     (hne : o ≠ .unmodelled) (hne' : o' ≠ .unmodelled) : o.obs = o'.obs := by
   obtain ⟨m, hm, hobs⟩ := result_is_solo hC hcanon h0 hr t ht o ho hne
@@ -191,12 +203,9 @@ theorem same_query_same_result {env : Env} {C : Query → Prop} {T : Str → Pro
 configuration every answer a thread has received is a miss or the finished (good) value of the key it asked for. -/
 theorem answers_are_finished {env : Env} {C : Query → Prop} {T : Str → Prop} (hC : Closed env C T)
     (hcanon : ∀ q, C q → CanonOK env q) {c0 c : Config} (h0 : Fresh env C c0)
-    (hr : Reach env c0 c ∨ Reach env (startAll env c0) c) (t : Thread) (ht : t ∈ c.threads) :
+    (hr : Reach env c0 c) (t : Thread) (ht : t ∈ c.threads) :
     GoodPairs env (t.run env).1.trace t.answers := by
-  have hinv : Inv env C c := by
-    rcases hr with hr | hr
-    · exact reach_preserves_inv hC hcanon hr h0.inv
-    · exact reach_preserves_inv hC hcanon hr (startAll_inv h0.inv)
+  have hinv : Inv env C c := reach_preserves_inv hC hcanon hr h0.inv
   exact (hinv.2 t ht).good
 
 /-- … cache side: a progress (`store_metadata`) write — including the `ready` one that precedes `store` — never creates data:
@@ -217,7 +226,9 @@ theorem metadata_only_is_miss (w : World) (k status : Str) (h : w.dataAt k = non
 
 /-- A thread that is never pre-empted is the sequential evaluation: fed exactly the answers the cache gives in order, the
 oracle evaluator returns `evalQ`'s outcome, logs `evalQ`'s calls, consumes all answers without starving, and replaying its
-trace on the cache (`applyOp` folded over it) gives `evalQ`'s final cache and those answers. -/
+full trace — own operations and progress-metadata writes — on the cache (`applyOp` folded over it) gives `evalQ`'s final cache
+and those answers: the sequential evaluation is the schedule in which the thread's own operations are thread steps and its
+metadata writes are the environment steps, in trace order. -/
 theorem evalQO_agrees (env : Env) (n : Nat) (w : World) (q : Query) (raw : Str) :
     ∃ A : List (Option EState),
       (evalQO env n { answers := A } q raw .none none true).2 = (evalQ env n w q raw .none none true).2 ∧
@@ -242,37 +253,58 @@ example : Closed env0 C0 T0 ∧ (∀ q, C0 q → CanonOK env0 q) ∧ Fresh env0 
   simp only [cfg0, List.mem_cons, List.not_mem_nil, or_false] at ht
   rcases ht with rfl | rfl <;> simp [C0]
 
--- thread 0 is pre-empted between its last progress write for `one` (status `ready`) and the `store`: the entry of `one` says
--- `ready` but holds no data, thread 1 asking for `one` gets a miss (it is not served the unfinished entry) …
+-- thread 0 asks for `one/add-2` and `one` (two misses); then the environment writes metadata with status `ready` for `one`,
+-- which nobody has stored yet (the write the producer of `one` issues just before its `store`): the entry of `one` says
+-- `ready` but holds no data, and thread 1 asking for `one` gets a miss (it is not served the unfinished entry) …
 open Ex in
 example :
-    let c1 := runSchedule env0 (startAll env0 cfg0) [0, 0]
+    let c1 := runEvents env0 cfg0 [.thread 0, .thread 0, .meta_ (s "one") statusReady]
     (c1.shared.entry (s "one")).map (fun e => (e.status == statusReady, e.st.isSome)) = some (true, false) ∧
     c1.shared.get (s "one") = none ∧
-    (c1.threads.map (·.done)) = [5, 0] ∧
-    ((runSchedule env0 c1 [1]).threads.map (fun t => t.answers.map Option.isSome)) = [[false, false], [false]] := by
+    (c1.threads.map (·.done)) = [2, 0] ∧
+    ((runEvents env0 c1 [.thread 1]).threads.map (fun t => t.answers.map Option.isSome)) = [[false, false], [false]] := by
   decide +kernel
 
--- … and whatever happens next — here both threads interleave their remaining operations — both return their solo results
--- (3 and 1, as the reference interpretation), the cache ends with the fresh values of `one` and `one/add-2`
+-- … and whatever happens next — here both threads interleave their remaining operations and the environment writes more
+-- metadata — both return their solo results (3 and 1, as the reference interpretation), the cache ends with the fresh values of
+-- `one` and `one/add-2`
 open Ex in
 example :
-    let c := finishAll env0 20 (runSchedule env0 (startAll env0 cfg0) [0, 0, 1, 0, 1, 0, 1])
+    let c := finishAll env0 20 (runEvents env0 cfg0 [.thread 0, .thread 0, .meta_ (s "one") statusReady, .thread 1, .thread 0,
+      .meta_ (s "one/add-2") (s "evaluation"), .thread 1, .thread 0, .thread 1])
     (c.threads.map (fun t => (t.result.bind (·.obs)).map (·.value))) = [some (some (.int 3)), some (some (.int 1))] ∧
+    (c.threads.map (·.done)) = [4, 2] ∧
     (refQ env0 9 qOneAdd (s "one/add-2") .none none).1.obs.map (·.value) = some (some (.int 3)) ∧
     (refQ env0 9 qOne (s "one") .none none).1.obs.map (·.value) = some (some (.int 1)) ∧
     ((c.shared.get (s "one")).map (·.data)) = some (.int 1) ∧
     ((c.shared.get (s "one/add-2")).map (·.data)) = some (.int 3) := by
   decide +kernel
 
--- a thread that runs alone (never pre-empted) is the sequential evaluation: same observation, same cache contents, same calls
+-- the same with thread indices only (no environment step)
 open Ex in
 example :
-    let c := finishAll env0 20 (startAll env0 { shared := {}, threads := [{ q := qOneAdd, raw := s "one/add-2" }] })
+    let c := finishAll env0 20 (runSchedule env0 cfg0 [0, 0, 1, 0, 1, 0, 1])
+    (c.threads.map (fun t => (t.result.bind (·.obs)).map (·.value))) = [some (some (.int 3)), some (some (.int 1))] := by
+  decide +kernel
+
+-- a thread that runs alone (never pre-empted) is the sequential evaluation: same observation, same cache contents, same calls
+-- — without any environment step (the final `store` of a key overwrites its progress metadata), and with the thread's own
+-- progress writes replayed as environment steps at their places in the trace
+open Ex in
+example :
+    let c := finishAll env0 20 { shared := {}, threads := [{ q := qOneAdd, raw := s "one/add-2" }] }
+    let c' := runEvents env0 { shared := {}, threads := [{ q := qOneAdd, raw := s "one/add-2" }] }
+      [.thread 0, .meta_ (s "one/add-2") (s "evaluating parent"), .thread 0, .meta_ (s "one") (s "evaluation"),
+       .meta_ (s "one") statusReady, .thread 0, .meta_ (s "one/add-2") (s "evaluation"), .meta_ (s "one/add-2") statusReady,
+       .thread 0, .thread 0]
     let r := evalQ env0 (evalFuel (s "one/add-2")) {} qOneAdd (s "one/add-2") .none none true
     (c.threads.map (fun t => (t.result.bind (·.obs)).map (·.value))) = [r.2.obs.map (·.value)] ∧
     (c.threads.map (·.calls)) = [r.1.calls] ∧
     (c.shared.cache.map (fun e => (e.1, e.2.status, e.2.st.map (·.data)))) =
+      (r.1.cache.map (fun e => (e.1, e.2.status, e.2.st.map (·.data)))) ∧
+    (c'.threads.map (fun t => (t.result.bind (·.obs)).map (·.value))) = [r.2.obs.map (·.value)] ∧
+    (c'.threads.map (·.calls)) = [r.1.calls] ∧
+    (c'.shared.cache.map (fun e => (e.1, e.2.status, e.2.st.map (·.data)))) =
       (r.1.cache.map (fun e => (e.1, e.2.status, e.2.st.map (·.data)))) := by
   decide +kernel
 
@@ -291,14 +323,25 @@ example :
 
 -- the theorems apply to it: the final cache is `Sound`
 open Ex in
-example : Sound env0 (finishAll env0 20 (runSchedule env0 (startAll env0 cfg0) [0, 0, 1, 0, 1, 0, 1])).shared :=
+example : Sound env0 (finishAll env0 20 (runEvents env0 cfg0 [.thread 0, .thread 0, .meta_ (s "one") statusReady, .thread 1,
+    .thread 0, .meta_ (s "one/add-2") (s "evaluation"), .thread 1, .thread 0, .thread 1])).shared :=
   cache_sound_every_schedule closed0 canon0
     (by
       refine ⟨Sound.empty _, fun t ht => ?_⟩
       simp only [cfg0, List.mem_cons, List.not_mem_nil, or_false] at ht
       rcases ht with rfl | rfl <;> simp [C0])
-    (Or.inr (schedule_reach env0 _ _ _))
+    (events_reach env0 _ _ _)
+
+-- an environment step is a step of `StepAny` (so `Reach` covers arbitrary metadata writes), and it preserves the invariant of
+-- the example configuration
+open Ex in
+example : Reach env0 cfg0 (envMeta cfg0 (s "one") statusReady) ∧ Inv env0 C0 (envMeta cfg0 (s "one") statusReady) := by
+  have hf : Fresh env0 C0 cfg0 := by
+    refine ⟨Sound.empty _, fun t ht => ?_⟩
+    simp only [cfg0, List.mem_cons, List.not_mem_nil, or_false] at ht
+    rcases ht with rfl | rfl <;> simp [C0]
+  exact ⟨(Reach.refl _).envMeta _ _, env_preserves_inv hf.inv _ _⟩
 
 end Liquer.C12
 
--- OBLIGATIONS: Liquer.C12.inst_registry Liquer.C12.good_answer Liquer.C12.oracle_refines Liquer.C12.oracle_frame Liquer.C12.answers_extend_trace Liquer.C12.apply_op_sound Liquer.C12.meta_remove_harmless Liquer.C12.recorded_answer_good Liquer.C12.inv_iff Liquer.C12.fresh_inv Liquer.C12.step_preserves_inv Liquer.C12.start_preserves_inv Liquer.C12.reach_preserves_inv Liquer.C12.schedule_preserves_inv Liquer.C12.schedule_reach Liquer.C12.cache_sound_every_schedule Liquer.C12.cache_values_fresh Liquer.C12.result_is_solo Liquer.C12.result_is_sequential Liquer.C12.same_query_same_result Liquer.C12.answers_are_finished Liquer.C12.never_serves_unfinished Liquer.C12.metadata_only_is_miss Liquer.C12.evalQO_agrees
+-- OBLIGATIONS: Liquer.C12.inst_registry Liquer.C12.good_answer Liquer.C12.oracle_refines Liquer.C12.oracle_frame Liquer.C12.answers_extend_trace Liquer.C12.apply_op_sound Liquer.C12.meta_remove_harmless Liquer.C12.recorded_answer_good Liquer.C12.inv_iff Liquer.C12.fresh_inv Liquer.C12.step_preserves_inv Liquer.C12.env_preserves_inv Liquer.C12.reach_preserves_inv Liquer.C12.schedule_preserves_inv Liquer.C12.schedule_reach Liquer.C12.events_preserve_inv Liquer.C12.events_reach Liquer.C12.cache_sound_every_schedule Liquer.C12.cache_values_fresh Liquer.C12.result_is_solo Liquer.C12.result_is_sequential Liquer.C12.same_query_same_result Liquer.C12.answers_are_finished Liquer.C12.never_serves_unfinished Liquer.C12.metadata_only_is_miss Liquer.C12.evalQO_agrees
